@@ -33,6 +33,18 @@ def builtin_heavy(rng, g):
     expressions for the optimizer, nested functions, destructuring, imports"""
     b = lambda: rng.choice(BUILTIN_POOL[:12])
     lines = ["out := []"]
+    if rng.random() < .5:
+        # a literal constant in scope: the compiler then folds unary / binary expressions while compiling
+        lines.append(rng.choice(["const kc = 1", "const (\n\tkz = iota\n\tkc\n)", "const kc = \"s\""]))
+        for _ in range(rng.randrange(1, 4)):
+            bn = b()
+            arg = rng.choice(['"12"', '"abc"', "3", "[1]"])
+            use = rng.choice(["kc + %s(%s)" % (bn, arg), "-%s(%s)" % (bn, arg), "%s(%s) == kc" % (bn, arg), "!%s(%s)" % (bn, arg)])
+            lines.append(rng.choice(["f%d := func() { return %s }\nout = append(out, f%d())" % (0, "%s", 0),
+                                     "if len(out) == 0 { out = append(out, %s) }",
+                                     "out = append(out, func() { return func() { return %s }() }())",
+                                     "for i := 0; i < 1; i++ { out = append(out, %s) }",
+                                     "out = append(out, %s)"]).replace("f0", "f%d" % rng.randrange(99)) % use)
     for _ in range(rng.randrange(2, 7)):
         k = rng.randrange(10)
         if k == 0: lines.append("out = append(out, %s(%s))" % (b(), rng.choice(['"12"', "[1, 2]", "3", '"ab"'])))
